@@ -441,7 +441,7 @@ fn recv_one(sh: &Shared, a: usize, sub: usize, r: Result<Update, UnitStatus>, lo
 fn drain_now(sh: &Shared, sub: usize, lo: &mut LinkObj) {
     let Some(l) = lo.q.as_mut() else { return };
     if !lo.open { return; }
-    while let Some(Ok(u)) = l.query().now_or_never() {
+    while let Some(Ok(u)) = tokio::task::unconstrained(l.query()).now_or_never() {
         let m = rd_update(&u);
         sh.sched.with(|t| { let s = t.subs[sub].slot; t.subs[sub].received.push(m); t.emit(format!("lr.{s}")); });
     }
@@ -522,7 +522,7 @@ async fn link_actor(sh: &Shared, a: usize, ops: &[LOp], lo: &mut LinkObj) {
                 let (Some(sub), true) = (lo.sub, lo.open) else { continue };
                 if lo.q.is_none() { continue; }
                 for _ in 0..*n {
-                    let r = lo.q.as_mut().unwrap().query().now_or_never();
+                    let r = tokio::task::unconstrained(lo.q.as_mut().unwrap().query()).now_or_never();
                     match r { Some(r) => { if !recv_one(sh, a, sub, r, lo) { break; } } None => break }
                 }
             }
@@ -582,7 +582,7 @@ async fn link_actor(sh: &Shared, a: usize, ops: &[LOp], lo: &mut LinkObj) {
                         Some(r) => { if !recv_one(sh, a, sub, r, lo) { break; } }
                         None => {
                             loop {
-                                let r = lo.q.as_mut().unwrap().query().now_or_never();
+                                let r = tokio::task::unconstrained(lo.q.as_mut().unwrap().query()).now_or_never();
                                 match r { Some(r) => { if !recv_one(sh, a, sub, r, lo) { break; } } None => break }
                             }
                             break;
@@ -819,7 +819,7 @@ fn run_case(sc: &Script, plan: Plan, rng: &mut Rng) -> CaseResult {
         if let (Some(l), true) = (lo.q.as_mut(), lo.open) {
             let mut gone = false;
             for _ in 0..2000 {
-                match l.query().now_or_never() { Some(Err(UnitStatus::Gone)) => { gone = true; break; } Some(_) => continue, None => break }
+                match tokio::task::unconstrained(l.query()).now_or_never() { Some(Err(UnitStatus::Gone)) => { gone = true; break; } Some(_) => continue, None => break }
             }
             if !gone { fails.push(format!("termination:queue-link-not-gone slot={}", subs[sub].slot)); }
         } else if let Some(d) = lo.d.as_mut() {
@@ -925,7 +925,7 @@ fn free_case(seed: u64, big: bool) -> (String, String, bool) {
                     }
                     if stable || finished {
                         // publishers are done: everything pushed is in the queue already
-                        if let Some(l) = q.as_mut() { while let Some(Ok(u)) = l.query().now_or_never() { subs.lock().unwrap()[idx].got.push(rd_update(&u)); } }
+                        if let Some(l) = q.as_mut() { while let Some(Ok(u)) = tokio::task::unconstrained(l.query()).now_or_never() { subs.lock().unwrap()[idx].got.push(rd_update(&u)); } }
                         kept.push((q, d, target, idx));
                         break;
                     }
@@ -933,7 +933,7 @@ fn free_case(seed: u64, big: bool) -> (String, String, bool) {
                     subs.lock().unwrap()[idx].t_end = Some(ticket.fetch_add(1, Ordering::SeqCst));
                     if let Some(l) = q.as_mut() {
                         if lr.chance(1, 3) { l.suspend().await; tokio::task::yield_now().await; }
-                        while let Some(Ok(u)) = l.query().now_or_never() { subs.lock().unwrap()[idx].got.push(rd_update(&u)); }
+                        while let Some(Ok(u)) = tokio::task::unconstrained(l.query()).now_or_never() { subs.lock().unwrap()[idx].got.push(rd_update(&u)); }
                         l.disconnect().await;
                     }
                     if let Some(dl) = d.as_mut() { dl.disconnect().await; }
